@@ -37,6 +37,7 @@ struct TxRec {
     int64_t last_msglen[2] = {0, 0};
     bool decomp_restart_lost_input = false;   // a decompressor restart happened after input of earlier calls had been consumed
     int max_layers = 0;              // longest decompressor chain seen while body data was delivered
+    bool cb_nonok_any = false;       // some scripted callback for this transaction returned STOP / ERROR (any hook)
     std::string lenient_site[2];     // lenient-parsing call site (guarded probe) that delivered data for this side, if any
 };
 
